@@ -43,7 +43,8 @@ class STracer:
         class Sch(ActionScheduler):
             def default_action(self, obj, time, new_state):
                 tr.calls.append([obj.name, 0])
-                tr.args.append([True, _t(time), new_state])
+                # during the call the scheduler is already in the new state
+                tr.args.append([bool(self.current_state == new_state), _t(time), new_state])
 
         sched = [(d * TICK, s) for d, s in self.tt]
         if cyc == 'default':
@@ -62,7 +63,7 @@ class STracer:
 
     def override(self, sched, obj, time, state):
         self.calls.append([obj.name, 1])
-        self.args.append([sched is self.sch, _t(time), state])
+        self.args.append([bool(sched is self.sch and sched.current_state == state), _t(time), state])
 
     def do_reg(self, act, obj, ov):
         o = self.objs[obj]
